@@ -17,6 +17,12 @@ PROGS = [
     {"nodes": [{"k": "par", "explicit_cfg": True, "large_items": [0, 1], "cfg": {"min": 2},
                 "branches": [[{"k": "step"}], [{"k": "step"}], [{"k": "wait", "s": 5}]]}, {"k": "wait"}]},
     {"nodes": [{"k": "map", "large_items": [0], "branches": [[{"k": "step"}], [{"k": "step"}]]}, {"k": "wait"}]},
+    # early completion with max_concurrency below the branch count: some branches are never scheduled (no record at all) and are
+    # reported as STARTED items; the rebuilt result must still list them
+    {"nodes": [{"k": "map", "maxc": 1, "explicit_cfg": True, "large_items": [0, 1], "cfg": {"min": 2},
+                "branches": [[{"k": "step"}], [{"k": "step"}], [{"k": "step"}], [{"k": "step"}], [{"k": "step"}]]}, {"k": "wait"}, {"k": "step"}]},
+    {"nodes": [{"k": "par", "maxc": 1, "explicit_cfg": True, "large_items": [0], "cfg": {"tolc": 0}, "braise": [1], "caught": True,
+                "branches": [[{"k": "step"}], [], [{"k": "step"}], [{"k": "step"}]]}, {"k": "wait"}, {"k": "step"}]},
 ]
 
 
